@@ -97,7 +97,9 @@ def validate(traces, rep: Report, prop: str, *, nshards=None):
         own = owner_of(clause, detail)
         owners[own] += 1
         # a container that never finishes its suspension also never reaches its one outcome (C09)
-        also = {"conf.C10.lists": {"C09"}, "C10.SuspLeftPositive": {"C09"}}.get(clause, set())
+        also = {"conf.C10.lists": {"C09"}, "C10.SuspLeftPositive": {"C09"},
+                # "leaving earlier operators completed and the current and later ones failed" is a sentence of C05 as well
+                "C09.ResultShape": {"C05"}}.get(clause, set())
         if own != prop and prop not in also:
             continue
         tr = by_tid.get(tid, [])
